@@ -408,8 +408,13 @@ class sqlmeta(with_metaclass(declarative.DeclarativeMeta, object)):
             setattr(soClass, '_SO_from_python_%s' % name, column.from_python)
             setattr(soClass, '_SO_to_python_%s' % name, column.to_python)
             setattr(soClass, rawSetterName(name), setter)
-            # Then do the aliasing
-            if not hasattr(soClass, setterName(name)) or (name == 'childName'):
+            # Then do the aliasing.  A setter inherited from the
+            # superclass that is itself such an alias (not written by
+            # the user) is replaced and stays "plain"
+            setter._SO_plainSetter = True
+            inherited = getattr(soClass, setterName(name), None)
+            if inherited is None or (name == 'childName') or \
+                    getattr(inherited, '_SO_plainSetter', False):
                 setattr(soClass, setterName(name), setter)
                 # We keep track of setters that haven't been
                 # overridden, because we can combine these
